@@ -11,9 +11,18 @@ Stokes / singleton containers over the same leaves, other dict keys, other leaf 
 identity / scalar operators on them and by block-diagonal / block-row / block-column blocks: all ordered pairs of
 variants with equally many leaves must be refused, equal structures in distinct objects (and dicts in another
 insertion order) accepted.
+Every WRAPPER class is a block too (WRAPPERS): the plain lazy TransposeOperator (A.T of a user-defined operator, of a
+square BroadcastDiagonalOperator, of a square IndexOperator, the explicit TransposeOperator(A) of a dense block),
+ReshapeTransposeOperator, QURotationTransposeOperator, DiagonalInverseOperator, the lazy InverseOperator (of SPD
+operators, so that its iterative action is exact), and compositions / sums / block operators over them; each at a random
+position of the container shapes.  Every operator is taken through the SEQUENCES .T, .T.T and - block-diagonal with square
+blocks - .I, .T.I, .I.T, .I.I, .T.I.T: class, container, structures, block-by-block skeleton (the same steps on every
+block alone) and the DENSE MATRIX of the result (evaluated from its structure, by basis vectors where its action is
+exact, and by its own as_matrix()) against NumPy transposes / numpy.linalg.inv of the blocks' matrices, stacked.
 Model: Model/Algebra.v (mk_block, structs, transpose, reduce, block rules), Model/Denote.v (denote of
-Block terms), Model/BlockMat.v (binv, hstack/vstack/block_diag of the blocks' matrices), evaluated by
-vm_compute on the encoded blocks (harness/algebra.py).
+Block terms), Model/BlockMat.v (binv, steps, hstack/vstack/block_diag of the blocks' matrices), evaluated by
+vm_compute on the encoded blocks (harness/algebra.py); the matrices of the sequence results come from Model/Inverse.v
+(imat: a lazy inverse acts as the certified Gauss-Jordan inverse of its operand's matrix).
 Oracle: NumPy hstack / vstack / scipy.linalg.block_diag of the blocks' dense matrices (assembled from
 the parts, never from the block operator itself); reduced versus unreduced products.
 """
@@ -103,8 +112,11 @@ LET.update({
     'SUT': {'k': 'expr', 'e': {'add': ['U22bT', 'B22']}},
     'CUI': {'k': 'expr', 'e': {'mm': ['U22', 'S22I']}},
     'C23': {'k': 'expr', 'e': {'mm': ['U22T', 'A23']}},      # [3] -> [2]
-    # a block-diagonal block over lazy wrappers (inverse() recurses into it)
+    # a block-diagonal block over lazy wrappers (inverse() recurses into it); block row / column over lazy wrappers
+    # (operands of the product rules: e.g. BRu @ BDu, BDu @ BCu, BRu @ BCu)
     'BDu': {'k': 'bdiagop', 'blocks': {'tuple': ['U22T', 'D2I']}},
+    'BRu': {'k': 'row', 'blocks': {'tuple': ['LtA22', 'S22I']}},
+    'BCu': {'k': 'col', 'blocks': {'tuple': ['U22bT', 'D2']}},
 })
 # the wrapper / composite blocks, by the shared structure they can be given
 WRAP_SQ2 = ['U22T', 'U22bT', 'Bd2T', 'LtA22', 'D2I', 'S22I', 'Us22I', 'CUT', 'SUT', 'CUI', 'CAB', 'SAB', 'NS', 'U22', 'U22b', 'Us22', 'Bd2']
@@ -517,8 +529,13 @@ class Check(PropertyCheck):
         'which blocks have mismatching shared structures is decided by the harness with its own structural key of the real '
         'structures (container kind, dict keys, Stokes class, leaf shape and dtype: alg_cases.key), never with the `==` of '
         'the code under test; the model decides it with struct_eqb on the encoded structures',
-        'the inverse of a block is checked numerically only for closed-form inverses (identity, scalar, rotation); iterative '
-        'InverseOperator blocks are compared structurally (C06 covers their action)',
+        'the iterative action (mv) of a lazy InverseOperator is used only where it is exact (symmetric positive definite '
+        'operand: conjugate gradient) and never through a lazy transpose (jax.linear_transpose of the solve is unsupported by '
+        'the library); elsewhere the results of .I / .T.I / .I.T / .I.I are evaluated from their structure - harness side: '
+        'numpy.linalg.inv / transposes of the matrices of the objects they hold, model side: Model/Inverse.v imat (certified '
+        'Gauss-Jordan inverse) - and through their own as_matrix() override (C06 covers the action of the solver)',
+        'the expected matrix of a sequence of .T / .I is computed by NumPy (transpose, numpy.linalg.inv in float64) on the '
+        'matrices of the blocks measured by basis vectors, rounded to rationals as above',
     ]
 
     # -- cases ---------------------------------------------------------------------------------
@@ -702,8 +719,14 @@ class Check(PropertyCheck):
             'float16 or longer leaf) carried by identity, scalar, block-diagonal, block-row and block-column blocks; every '
             'ordered pair of different variants with equally many leaves (all pairs in the thorough tier) must be refused '
             'by the row (outputs) and column (inputs) constructors at the first or a random position of every multi-block '
-            'container, equal variants accepted. Non-trivial: constructor refusal, arity one, nested or dict '
-            'container, pytree-valued block, or a product rewritten by a block rule.'
+            'container, equal variants accepted. Wrapper blocks: ~45 blocks covering every lazy wrapper class (plain '
+            'TransposeOperator of user-defined / broadcast-diagonal / index / dense operators, ReshapeTranspose, '
+            'QURotationTranspose, DiagonalInverse, InverseOperator) and compositions / sums / block operators over them, each '
+            'at a random position of the bare, one single-block and one or two multi-block containers (all nine in the '
+            'thorough tier) of every block class that admits it; every operator goes through .T, .T.T and (block-diagonal, '
+            'square blocks) .I, .T.I, .I.T, .I.I, .T.I.T with the result compared block by block and as a dense matrix with '
+            'NumPy transposes / inverses of the blocks\' matrices. Non-trivial: constructor refusal, arity one, nested or dict '
+            'container, pytree-valued or wrapper block, or a product rewritten by a block rule.'
         )
 
     def distribution(self, cases):
@@ -944,7 +967,7 @@ class Check(PropertyCheck):
         if case['kind'] == 'mismatch' or case['kind'] == 'product-mismatch':
             return True
         if case['kind'] == 'single':
-            return case['shape'] != 'list2' or any(n in ('BR', 'BRw', 'BC', 'BCt', 'BD') for n in case['names'])
+            return case['shape'] != 'list2' or any(n in ('BR', 'BRw', 'BC', 'BCt', 'BD') or n in WRAPPERS for n in case['names'])
         return 'reduced' in obs and obs['reduced'].get('skel') != obs['product'].get('skel')
 
     def finding_key(self, case, obs):
